@@ -227,6 +227,35 @@ func scenC12(w *vsim.World, spec *vsim.Spec) {
 			writable = append(writable, s)
 		}
 	}
+	// a concurrent ranker: another goroutine of the same process ranks the same services for other
+	// hashes while the client works (as keep-balance's workers and multi-threaded clients do), and a
+	// task may lose the processor before any statement of the weight function (rule R9)
+	rankerDone := true
+	if nr := w.Choose("concurrent-ranker", 3); nr != 0 {
+		w.PreemptOn = true
+		rankerDone = false
+		rounds := 2 + 3*nr
+		roots := map[string]string{}
+		for _, s := range svcs {
+			roots[s.uuid] = "http://" + s.host
+		}
+		w.Spawn("ranker", func() {
+			for k := 0; k < rounds && !w.Failed(); k++ {
+				h := fmt.Sprintf("%x", md5.Sum([]byte(fmt.Sprintf("ranked block %d", k))))
+				got := NewRootSorter(roots, h).GetSortedRoots()
+				var want []string
+				for _, s := range refOrder(h, svcs) {
+					want = append(want, "http://"+s.host)
+				}
+				if strings.Join(got, " ") != strings.Join(want, " ") {
+					w.Violation("c12/ranking-differs-from-reference", "a concurrent ranking of %s gave %v, the reference order is %v", h, got, want)
+					return
+				}
+				w.Probe("concurrent-ranking-checked")
+			}
+			rankerDone = true
+		})
+	}
 	done := false
 	w.Spawn("client", func() {
 		if secondFirst {
@@ -265,7 +294,7 @@ func scenC12(w *vsim.World, spec *vsim.Spec) {
 	if w.Failed() || w.Truncated() {
 		return
 	}
-	if !done {
+	if !done || !rankerDone {
 		w.Violation("c12/client-stuck", "%s", strings.Join(w.Blocked(), "; "))
 		return
 	}
